@@ -1,8 +1,23 @@
 """C03 - the ANSI stream written means exactly what the styled segments say (and, for truecolor
-output, C19's decoder round trip).  Styled segment sequences are printed on real consoles of
+output, C19's decoder round trip).  Styled segment sequences are written through real consoles of
 every colour system / NO_COLOR / terminal / legacy-windows configuration - the SAME Style objects
 on several consoles in a row -; the written characters are tokenised lexically and TLC interprets
-them with the independent terminal automaton Sgr.tla (Trace_Sgr)."""
+them with the independent terminal automaton Sgr.tla (Trace_Sgr).
+
+A case (JSON-able, = the replay payload):
+  styles   recipes of the Style objects of the history (how each is BUILT: keywords, Style.parse, +, chain / combine,
+           copy, update_link, without_color, from_color, null, rendered beforehand for another colour system)
+  segs     [[text, style index | None, is_control]]
+  mode     how the segments reach the console: "segs" one renderable yielding Segments, "split" the same in 2-3 prints
+           on one console, "text" a rich.text.Text with one span per segment, "str" console.print(str, style=) per
+           segment, "out" console.out(str, style=) per segment
+  pbase    style index | None: print(style=) / Text(style=) under the segment styles
+  cbase    style index | None: Console(style=) under the segment styles (never together with pbase: the statement does
+           not say which of the two lies under the other)
+  crop     print(crop=)
+  decapi   "line" | "all": AnsiDecoder.decode_line per line / AnsiDecoder.decode of the whole output
+  consoles [cfg]: system (or "auto" + TERM / COLORTERM), nocolor (by argument or by NO_COLOR in the environment),
+           force (force_terminal True / False / None = ask the file), tty (the file claims to be one), legacy, record"""
 import io
 
 from engine import tlc
@@ -10,10 +25,160 @@ from engine.harness import Check
 from engine.sgrlex import lex
 
 ATTRS = ["bold", "dim", "italic", "underline", "blink", "blink2", "reverse", "conceal", "strike", "underline2", "frame", "encircle", "overline"]
+SHORT = {"bold": "b", "dim": "d", "italic": "i", "underline": "u", "reverse": "r", "conceal": "c", "strike": "s", "underline2": "uu", "overline": "o"}
 SYSTEMS = ["none", "standard", "256", "truecolor", "windows"]
-TEXTS = ["a", "xy", " ", "\n", "世", "é", "0", "q\nr", "tab"]
+# no C0 controls and no ESC inside text: a terminal would interpret them, whatever the console does
+TEXTS = ["a", "xy", " ", "\n", "\u4e16", "\xe9", "0", "q\nr", "tab", "", "a;b", "[x]", "]8;;", "m", "0m", "\\", "1;31", "ab cd  e", "  x ", "\uff21\uff22",
+         "e\u0301", "\U0001f642", "\u200b", "[/]", "38;5;1m", "\n\n", "x\n"]
+STD_NAMES = ["black", "red", "green", "yellow", "blue", "magenta", "cyan", "white", "bright_black", "bright_red", "bright_green", "bright_yellow",
+             "bright_blue", "bright_magenta", "bright_cyan", "bright_white"]
+NAMES_256 = ["grey0", "navy_blue", "dark_orange3", "grey100", "purple", "orange1", "grey3", "grey93", "deep_pink4", "light_coral"]
+LINKS = ["https://example.org/a", "https://example.org/b?x=1", "https://example.org/c?q=rich;lang=en&x=%20#frag", "file:///tmp/a b;c",
+         "x", "mailto:a@b.c", "https://example.org/]m[0m", "https://\u4f8b.org/\xfc"]
+CONTROLS = ["\x07", "\x1b[?25l", "\x1b[?25h", "\x1b[2K", "\x1b[1A", "\r", "\x1b[H", "\x1b[2J", "\x1b[1A\x1b[2K"]
 
 
+# ------------------------------------------------------------------------------------------ recipes -> objects
+def build_color(rc):
+    from rich.color import Color, ColorSystem
+    from rich.color_triplet import ColorTriplet
+    if rc is None or isinstance(rc, str):
+        return rc                                   # a string is handed to Style / parse as it is
+    k = rc["k"]
+    if k == "parse":
+        return Color.parse(rc["v"])
+    if k == "rgb":
+        return Color.from_rgb(*rc["v"])
+    if k == "triplet":
+        return Color.from_triplet(ColorTriplet(*rc["v"]))
+    if k == "ansi":
+        return Color.from_ansi(rc["v"])
+    if k == "win":
+        return Color.parse(rc["v"]).downgrade(ColorSystem.WINDOWS)
+    if k == "default":
+        return Color.default()
+    raise ValueError(k)
+
+
+def build_style(r, built=None):
+    from rich.color import ColorSystem
+    from rich.style import Style
+    k = r["r"]
+    if k == "kw":
+        return Style(color=build_color(r.get("color")), bgcolor=build_color(r.get("bgcolor")), link=r.get("link"), **r.get("attrs", {}))
+    if k == "parse":
+        return Style.parse(r["d"])
+    if k == "null":
+        return Style.null()
+    if k == "add":
+        return build_style(r["a"]) + build_style(r["b"])
+    if k == "chain":
+        return Style.chain(*[build_style(x) for x in r["items"]])
+    if k == "combine":
+        return Style.combine([build_style(x) for x in r["items"]])
+    if k == "copy":
+        return build_style(r["a"]).copy()
+    if k == "ulink":
+        return build_style(r["a"]).update_link(r["link"])
+    if k == "nocolor":
+        return build_style(r["a"]).without_color
+    if k == "fromcolor":
+        from rich.color import Color
+        fg, bg = build_color(r.get("color")), build_color(r.get("bgcolor"))
+        return Style.from_color(Color.parse(fg) if isinstance(fg, str) else fg, Color.parse(bg) if isinstance(bg, str) else bg)
+    if k == "prerender":
+        # the object has already produced codes for some colour system before the history starts
+        st = build_style(r["a"])
+        cs = {"standard": ColorSystem.STANDARD, "256": ColorSystem.EIGHT_BIT, "truecolor": ColorSystem.TRUECOLOR, "windows": ColorSystem.WINDOWS}[r["sys"]]
+        st.render("x", color_system=cs)
+        return st
+    raise ValueError(k)
+
+
+def col_recipe(rng):
+    r = rng.random()
+    if r < 0.28:
+        return None
+    if r < 0.34:
+        return rng.choice(["default", dict(k="default")])
+    if r < 0.52:
+        return rng.choice(STD_NAMES)
+    if r < 0.56:
+        return rng.choice(NAMES_256)
+    if r < 0.70:
+        n = rng.choice([0, 7, 8, 15, 16, 17, 231, 232, 255, rng.randrange(256)])
+        return rng.choice(["color(%d)" % n, dict(k="ansi", v=n)])
+    if r < 0.75:
+        return dict(k="win", v=rng.choice(STD_NAMES))
+    t = [rng.choice([0, 1, 95, 128, 254, 255, rng.randrange(256)]) for _ in range(3)]
+    if rng.random() < 0.15:
+        t = [t[0]] * 3                              # greys
+    return rng.choice(["#%02x%02x%02x" % tuple(t), "#%02X%02X%02X" % tuple(t), "rgb(%d,%d,%d)" % tuple(t), dict(k="rgb", v=t), dict(k="triplet", v=t)])
+
+
+def col_word(rc, rng):
+    """a colour recipe as a word of a style definition (None if it has no spelling)"""
+    if isinstance(rc, str):
+        return rc
+    if isinstance(rc, dict) and rc["k"] == "ansi":
+        return "color(%d)" % rc["v"]
+    if isinstance(rc, dict) and rc["k"] in ("rgb", "triplet"):
+        return "#%02x%02x%02x" % tuple(rc["v"])
+    if isinstance(rc, dict) and rc["k"] == "default":
+        return "default"
+    return None
+
+
+def leaf_recipe(rng):
+    r = rng.random()
+    attrs = {a: v for a in ATTRS for v in [rng.choice([None, None, None, None, True, True, False])] if v is not None}
+    link = rng.choice([None, None, None] + LINKS)
+    fg, bg = col_recipe(rng), col_recipe(rng)
+    if r < 0.55:
+        return dict(r="kw", attrs=attrs, color=fg, bgcolor=bg, link=link)
+    if r < 0.80:
+        words = []
+        for a, v in attrs.items():
+            w = SHORT[a] if a in SHORT and rng.random() < 0.4 else a
+            words.append(w if v else "not " + w)
+        f, b = col_word(fg, rng), col_word(bg, rng)
+        if f:
+            words.append(f)
+        if b:
+            words.append("on " + b)
+        rng.shuffle(words)
+        if link and " " not in link:
+            words.append("link " + link)
+        return dict(r="parse", d=" ".join(words) or "none")
+    if r < 0.88:
+        return dict(r="fromcolor", color=fg, bgcolor=bg)
+    if r < 0.92:
+        return dict(r="null")
+    # styles that say something without switching anything on: only False attributes / only a link / only "default"
+    return rng.choice([dict(r="kw", attrs={a: False for a in rng.sample(ATTRS, rng.randint(1, 3))}),
+                       dict(r="kw", link=rng.choice(LINKS)), dict(r="kw", color="default", bgcolor="default"),
+                       dict(r="kw", attrs={a: True for a in ATTRS}), dict(r="kw", attrs={rng.choice(ATTRS): True})])
+
+
+def style_recipe(rng, depth=0):
+    r = rng.random()
+    if depth >= 2 or r < 0.62:
+        return leaf_recipe(rng)
+    sub = lambda: style_recipe(rng, depth + 1)
+    if r < 0.72:
+        return dict(r="add", a=sub(), b=sub())
+    if r < 0.77:
+        return dict(r=rng.choice(["chain", "combine"]), items=[sub() for _ in range(rng.randint(1, 3))])
+    if r < 0.82:
+        return dict(r="copy", a=sub())
+    if r < 0.88:
+        return dict(r="ulink", a=sub(), link=rng.choice([None] + LINKS))
+    if r < 0.92:
+        return dict(r="nocolor", a=sub())
+    return dict(r="prerender", a=sub(), sys=rng.choice(SYSTEMS[1:]))
+
+
+# ------------------------------------------------------------------------------------------ projections
 def proj_color(c):
     if c is None or c.is_default:
         return dict(k="def", a=0, b=0, c=0)
@@ -26,6 +191,9 @@ def proj_color(c):
     return dict(k="rgb", a=tr.red, b=tr.green, c=tr.blue)
 
 
+UNSET = dict(k="unset", a=0, b=0, c=0)
+
+
 def proj_style(st, links):
     if st is None:
         return dict(attrs=[], fg=proj_color(None), bg=proj_color(None), link=0)
@@ -36,51 +204,33 @@ def proj_style(st, links):
 _MEANING = {}      # id(style) -> (style, what it meant when it was created)
 
 
+def snapshot(st):
+    return dict(on=[i + 1 for i, a in enumerate(ATTRS) if getattr(st, a) is True], off=[i + 1 for i, a in enumerate(ATTRS) if getattr(st, a) is False],
+                color=st.color, bgcolor=st.bgcolor, link=st.link)
+
+
 def remember(st):
     """Snapshot of what a style means, taken when it is created: a later in-place change of a shared Style
     object (e.g. by a NO_COLOR console) must show up as a difference, not silently change the expectation."""
-    _MEANING[id(st)] = (st, dict(attrs=[i + 1 for i, a in enumerate(ATTRS) if getattr(st, a)], color=st.color, bgcolor=st.bgcolor, link=st.link))
+    _MEANING[id(st)] = (st, snapshot(st))
     return st
 
 
-def expected_pen(st, cfg, links):
-    """What the style MEANS on this console: attributes set to True, colours after the documented
-    down-conversion (Color.downgrade - C18's subject), link unless legacy windows."""
+def layer(st, system, links):
+    """One style as a layer of Trace_Sgr: attributes switched on / off, colours (after the documented down-conversion
+    to the console's colour system, Color.downgrade - C18's subject) or unset, link id or 0.  What NO_COLOR, a disabled
+    colour system and legacy windows do to it is the specification's business, not the projection's."""
     from rich.color import ColorSystem
-    if cfg["system"] == "none" or st is None:
-        return dict(attrs=[], fg=proj_color(None), bg=proj_color(None), link=0)
-    sysmap = {"standard": ColorSystem.STANDARD, "256": ColorSystem.EIGHT_BIT, "truecolor": ColorSystem.TRUECOLOR, "windows": ColorSystem.WINDOWS}
-    cs = sysmap[cfg["system"]]
     held = _MEANING.get(id(st))
-    m = held[1] if held is not None and held[0] is st else dict(attrs=[i + 1 for i, a in enumerate(ATTRS) if getattr(st, a)], color=st.color, bgcolor=st.bgcolor, link=st.link)
-    p = dict(attrs=list(m["attrs"]), link=0)
+    m = held[1] if held is not None and held[0] is st else snapshot(st)
+    cs = {"standard": ColorSystem.STANDARD, "256": ColorSystem.EIGHT_BIT, "truecolor": ColorSystem.TRUECOLOR, "windows": ColorSystem.WINDOWS}.get(system)
+    out = dict(on=m["on"], off=m["off"], link=0 if not m["link"] else links.setdefault(m["link"], len(links) + 1))
     for key, col in (("fg", m["color"]), ("bg", m["bgcolor"])):
-        p[key] = proj_color(None) if (col is None or cfg["nocolor"]) else proj_color(col.downgrade(cs))
-    if m["link"] and not cfg["legacy"]:
-        p["link"] = links.setdefault(m["link"], len(links) + 1)
-    return p
+        out[key] = UNSET if col is None else proj_color(col if cs is None else col.downgrade(cs))
+    return out
 
 
-def random_style(rng, Style):
-    kw = {a: rng.choice([None, None, None, None, True, True, False]) for a in ATTRS}
-
-    def col():
-        r = rng.random()
-        if r < 0.3:
-            return None
-        if r < 0.36:
-            return "default"
-        if r < 0.6:
-            return rng.choice(["black", "red", "green", "yellow", "blue", "magenta", "cyan", "white", "bright_black", "bright_red",
-                               "bright_green", "bright_yellow", "bright_blue", "bright_magenta", "bright_cyan", "bright_white"])
-        if r < 0.8:
-            return "color(%d)" % rng.choice([0, 7, 8, 15, 16, 17, 231, 232, 255, rng.randrange(256)])
-        return "#%02x%02x%02x" % tuple(rng.choice([0, 1, 95, 128, 254, 255, rng.randrange(256)]) for _ in range(3))
-    link = rng.choice([None, None, None, "https://example.org/a", "https://example.org/b?x=1", "https://example.org/c?q=rich;lang=en&x=%20#frag",
-                       "file:///tmp/a b;c"])
-    return remember(Style(color=col(), bgcolor=col(), link=link, **kw))
-
-
+# ------------------------------------------------------------------------------------------ execution
 class TtyFile(io.StringIO):
     """A file that claims to be a terminal: force_terminal=False must still win."""
 
@@ -88,47 +238,100 @@ class TtyFile(io.StringIO):
         return True
 
 
-def make_console(cfg):
+def make_console(cfg, cbase=None):
     from rich.console import Console
     f = TtyFile() if cfg.get("tty") else io.StringIO()
-    cs = None if cfg["system"] == "none" else cfg["system"]
-    c = Console(file=f, force_terminal=cfg["terminal"], color_system=cs, width=400, no_color=cfg["nocolor"], legacy_windows=cfg["legacy"],
-                _environ={}, highlight=False)
-    if cs is None:
-        c._color_system = None
+    env = dict(cfg.get("auto") or {})
+    if cfg.get("nocolor_env"):
+        env["NO_COLOR"] = "1"
+    if cfg.get("auto") is not None:
+        cs = "auto"
+    else:
+        cs = None if cfg["system"] == "none" else cfg["system"]
+    force = cfg["force"] if "force" in cfg else cfg["terminal"]
+    c = Console(file=f, force_terminal=force, color_system=cs, width=400, no_color=(None if cfg.get("nocolor_env") else cfg["nocolor"]),
+                legacy_windows=cfg["legacy"], _environ=env, highlight=False, record=bool(cfg.get("record")), style=cbase)
     return c, f
 
 
-def print_case(segs, cfg, links):
-    """segs: [(text, Style|None, is_control)] printed once on a console of configuration cfg."""
+def effective(cfg, console):
+    """the configuration as the statement names it: colour system in force (for "auto" the one the console reports),
+    NO_COLOR, is the target a terminal (forced, else what the file says), legacy windows"""
+    system = cfg["system"]
+    if cfg.get("auto") is not None:
+        system = console.color_system or "none"
+    force = cfg["force"] if "force" in cfg else cfg["terminal"]
+    return dict(system=system, nocolor=bool(cfg["nocolor"]), terminal=bool(cfg.get("tty")) if force is None else bool(force), legacy=bool(cfg["legacy"]))
+
+
+def print_case(case, styles, cfg, links):
+    """the case's segments written once through a console of configuration cfg; styles: the built Style objects."""
     from rich.segment import Segment
+    from rich.text import Text
+    segs = [(t, None if s is None else styles[s], ctl) for t, s, ctl in case["segs"]]
+    mode = case.get("mode", "segs")
+    pbase = None if case.get("pbase") is None else styles[case["pbase"]]
+    cbase = None if case.get("cbase") is None else styles[case["cbase"]]
+    if mode not in ("segs", "split"):
+        segs = [sg for sg in segs if not sg[2]]
 
     class Segs:
+        def __init__(self, part):
+            self.part = part
+
         def __rich_console__(self, console, options):
-            for text, st, ctl in segs:
+            for text, st, ctl in self.part:
                 yield Segment(text, st, ctl) if ctl else Segment(text, st)
-    console, f = make_console(cfg)
-    rec = dict(cfg=cfg, exc="none", hasdec=False, dec=[], segs=[], out=[])
+    console, f = make_console(cfg, cbase)
+    eff = effective(cfg, console)
+    rec = dict(cfg=eff, exc="none", hasdec=False, dec=[], segs=[], out=[], ctls=[])
     try:
-        console.print(Segs(), end="")
+        if mode == "segs":
+            console.print(Segs(segs), end="", style=pbase, crop=case.get("crop", True))
+        elif mode == "split":
+            k = max(1, min(len(segs), case.get("pieces", 2)))
+            step = -(-len(segs) // k)
+            for i in range(0, len(segs), step):
+                console.print(Segs(segs[i:i + step]), end="", style=pbase, crop=case.get("crop", True))
+        elif mode == "text":
+            t = Text(end="", style=pbase if pbase is not None else "")
+            for text, st, ctl in segs:
+                t.append(text, st)
+            console.print(t, end="", crop=case.get("crop", True))
+        elif mode == "str":
+            for text, st, ctl in segs:
+                console.print(text, style=st, end="", markup=False, emoji=False, highlight=False, crop=case.get("crop", True))
+        else:
+            for text, st, ctl in segs:
+                console.out(text, style=st, end="", highlight=False)
     except Exception as ex:
         rec["exc"] = type(ex).__name__
     out = f.getvalue()
-    rec["out"] = lex(out, links)
-    rec["segs"] = [dict(text=[ord(ch) for ch in text], pen=expected_pen(st, cfg, links)) for text, st, ctl in segs if not ctl]
-    if cfg["system"] == "truecolor" and not cfg["legacy"] and not cfg["nocolor"] and rec["exc"] == "none":
+    rec["out"] = lex(out, links, controls=True)
+    base = [b for b in (cbase, pbase if mode in ("segs", "split", "text") else None) if b is not None]
+    for text, st, ctl in segs:
+        if ctl:
+            rec["ctls"].extend(lex(text, links, controls=True))
+        else:
+            rec["segs"].append(dict(text=[ord(ch) for ch in text], layers=[layer(x, eff["system"], links) for x in base + ([st] if st is not None else [])]))
+    if eff["system"] == "truecolor" and rec["exc"] == "none":
         from rich.ansi import AnsiDecoder
         dec = AnsiDecoder()
         cells = []
         try:
-            lines = out.split("\n")
-            for li, line in enumerate(lines):
-                t = dec.decode_line(line)
-                for seg in t.render(console):
-                    p = proj_style(seg.style, links)
-                    for ch in seg.text:
-                        cells.append([ord(ch), p])
-                if li < len(lines) - 1:
+            if case.get("decapi", "line") == "all":
+                texts = list(dec.decode(out))
+                if out.endswith("\n") or out == "":
+                    texts.append(None)
+            else:
+                texts = [dec.decode_line(line) for line in out.split("\n")]
+            for li, t in enumerate(texts):
+                if t is not None:
+                    for seg in t.render(console):
+                        p = proj_style(seg.style, links)
+                        for ch in seg.text:
+                            cells.append([ord(ch), p])
+                if li < len(texts) - 1:
                     cells.append([10, proj_style(None, links)])
             rec["hasdec"] = True
             rec["dec"] = cells
@@ -137,42 +340,138 @@ def print_case(segs, cfg, links):
     return rec, out
 
 
-def random_case(rng, Style):
+def run_case(case):
+    """-> records (one per console of the history) ; the Style objects are built once and shared by all consoles"""
+    styles = [remember(build_style(r)) for r in case["styles"]]
+    links = {}
+    recs = []
+    for cfg in case["consoles"]:
+        rec, out = print_case(case, styles, cfg, links)
+        recs.append(rec)
+    return recs
+
+
+# ------------------------------------------------------------------------------------------ generation
+def random_cfg(rng):
+    system = rng.choice(SYSTEMS)
+    legacy = rng.random() < 0.2 and system != "none"
+    if legacy and rng.random() < 0.6:
+        system = "windows"                           # what a legacy console really has; the other systems remain combinable
+    auto = None
+    force = rng.choice([True, True, True, False, None])
+    tty = rng.random() < 0.4
+    if rng.random() < 0.12:
+        auto = rng.choice([{"TERM": "xterm-256color"}, {"TERM": "xterm"}, {"COLORTERM": "truecolor", "TERM": "xterm"}, {"COLORTERM": "24bit"},
+                           {"TERM": "dumb"}, {"TERM": "unknown"}, {"TERM": "linux-16color"}, {}])
+        system = "auto"
+        legacy = False
+    nocolor = rng.random() < 0.18
+    return dict(system=system, auto=auto, nocolor=nocolor, nocolor_env=nocolor and rng.random() < 0.4, force=force, tty=tty, legacy=legacy,
+                record=rng.random() < 0.15)
+
+
+def random_case(rng, only_decoder=False):
     """One history: a pool of Style objects reused on several consoles in a row."""
-    pool = [random_style(rng, Style) for _ in range(rng.randint(1, 4))] + [None]
+    n = rng.randint(1, 4)
+    styles = [style_recipe(rng) for _ in range(n)]
     segs = []
-    for _ in range(rng.randint(1, 6)):
-        if rng.random() < 0.1:
-            segs.append(("\x07", None, True))
+    for _ in range(rng.randint(1, 8)):
+        if rng.random() < 0.1 and not only_decoder:
+            # (a control segment may carry a style: it is still not text, and still not for a non-terminal)
+            segs.append([rng.choice(CONTROLS), rng.choice([None, None, rng.randrange(n)]), True])
         else:
-            segs.append((rng.choice(TEXTS), rng.choice(pool), False))
-    cfgs = []
-    for _ in range(rng.randint(1, 4)):
-        system = rng.choice(SYSTEMS)
-        legacy = rng.random() < 0.15 and system != "none"
-        cfgs.append(dict(system="windows" if legacy else system, nocolor=rng.random() < 0.15, terminal=rng.random() < 0.8, legacy=legacy,
-                         tty=rng.random() < 0.3))
-    return segs, cfgs
+            segs.append([rng.choice(TEXTS), rng.choice(list(range(n)) + [None]), False])
+    mode = rng.choice(["segs", "segs", "segs", "split", "text", "str", "out"])
+    case = dict(styles=styles, segs=segs, mode=mode, pieces=rng.randint(2, 3), pbase=None, cbase=None, crop=rng.random() < 0.7,
+                decapi=rng.choice(["line", "all"]))
+    if rng.random() < 0.25 and mode not in ("str", "out"):
+        # (print(str, style=) under a console style: the style argument IS the segment's style there, and which of the two
+        # lies under the other is not stated)
+        case["cbase" if rng.random() < 0.4 else "pbase"] = rng.randrange(n)
+    if only_decoder:
+        # styled text only (control codes are not text), printed in truecolor
+        if not any(not sg[2] for sg in segs):
+            segs.append(["a", None, False])
+        case["consoles"] = [dict(system="truecolor", auto=None, nocolor=rng.random() < 0.1, nocolor_env=False, force=True, tty=False,
+                                 legacy=rng.random() < 0.1, record=False)]
+    else:
+        case["consoles"] = [random_cfg(rng) for _ in range(rng.randint(1, 4))]
+    return case
 
 
-def describe(segs, cfgs):
-    return dict(segments=[(t, str(st) if st is not None else None, ctl) for t, st, ctl in segs], consoles=cfgs)
+def sweep_cases():
+    """hand-listed: every attribute alone (on, and off over an "on" base), every standard colour, the boundaries of the
+    indexed and 24-bit ranges, default, as foreground and as background - each on all five colour systems in a row (same
+    objects), once more under NO_COLOR, on legacy windows and on a non-terminal."""
+    row = [dict(system=s, auto=None, nocolor=False, nocolor_env=False, force=True, tty=False, legacy=False, record=False) for s in SYSTEMS]
+    extra = [dict(row[3], nocolor=True), dict(row[1], nocolor=True, nocolor_env=True), dict(row[4], legacy=True), dict(row[3], force=False, tty=True),
+             dict(row[2], force=None, tty=True), dict(row[2], force=None, tty=False)]
+    singles = [dict(r="kw", attrs={a: True}) for a in ATTRS] + [dict(r="parse", d=a) for a in ATTRS] + [dict(r="parse", d=s) for s in SHORT.values()]
+    cols = STD_NAMES + ["color(%d)" % n for n in (0, 7, 8, 15, 16, 17, 51, 196, 231, 232, 243, 255)] + ["#000000", "#ffffff", "#ff0000", "#010203", "#808080", "default"]
+    singles += [dict(r="kw", color=c) for c in cols] + [dict(r="kw", bgcolor=c) for c in cols]
+    singles += [dict(r="kw", link=l) for l in LINKS]
+    for r in singles:
+        yield dict(styles=[r], segs=[["a", 0, False], ["b", None, False], ["\x1b[2K", None, True], ["\x07", 0, True], ["c\nd", 0, False]], mode="segs", pbase=None, cbase=None, crop=True,
+                   decapi="line", consoles=row + extra)
+    everything = dict(r="kw", attrs={a: True for a in ATTRS}, color="red", bgcolor="#010203", link=LINKS[2])
+    for a in ATTRS:
+        # an attribute switched off over a base that has everything on
+        yield dict(styles=[everything, dict(r="kw", attrs={a: False})], segs=[["a", 1, False], ["b", None, False], ["c", 1, False]], mode="segs", pbase=0, cbase=None,
+                   crop=True, decapi="all", consoles=row + extra[:3])
+    # construction routes applied to the null style and to each other
+    null = dict(r="null")
+    red = dict(r="parse", d="red")
+    routes = [dict(r="ulink", a=null, link="x"), dict(r="ulink", a=dict(r="kw"), link="x"), dict(r="add", a=null, b=red), dict(r="add", a=red, b=null),
+              dict(r="copy", a=null), dict(r="copy", a=dict(r="kw", link="x", attrs=dict(bold=True))), dict(r="nocolor", a=red), dict(r="nocolor", a=dict(r="parse", d="bold red on blue")),
+              dict(r="fromcolor", color=None, bgcolor=None), dict(r="fromcolor", color="red", bgcolor=None), dict(r="fromcolor", color=None, bgcolor="#010203"),
+              dict(r="chain", items=[null]), dict(r="combine", items=[null, red, dict(r="kw", attrs=dict(bold=True))]), dict(r="ulink", a=dict(r="kw", link="x", color="red"), link=None),
+              dict(r="add", a=dict(r="prerender", a=dict(r="kw", color="#ff0000"), sys="truecolor"), b=dict(r="kw", attrs=dict(bold=True))),
+              dict(r="copy", a=dict(r="prerender", a=dict(r="kw", color="#ff0000", attrs=dict(bold=True)), sys="standard")),
+              dict(r="ulink", a=dict(r="prerender", a=dict(r="kw", color="#ff0000", attrs=dict(bold=True)), sys="256"), link="x"),
+              dict(r="nocolor", a=dict(r="prerender", a=dict(r="kw", color="#ff0000", attrs=dict(bold=True)), sys="truecolor"))]
+    for r in routes:
+        yield dict(styles=[r], segs=[["a", 0, False], ["b", None, False], ["c", 0, False]], mode="segs", pbase=None, cbase=None, crop=False, decapi="all",
+                   consoles=row + extra[:3])
+    for mode in ("segs", "split", "text", "str", "out"):
+        for base in ("pbase", "cbase", None):
+            c = dict(styles=[everything, dict(r="kw", color="color(9)", attrs=dict(bold=False)), dict(r="kw", bgcolor="default", link="x")],
+                     segs=[["a", 1, False], [" ", 2, False], ["b", None, False], ["q\nr", 1, False], ["", 2, False], ["z", 2, False]], mode=mode, pieces=3,
+                     pbase=None, cbase=None, crop=mode != "out", decapi="all", consoles=row + extra)
+            if base and mode not in ("str", "out"):
+                c[base] = 0
+            yield c
 
 
-def run_cases(chk, n, only_decoder=False):
-    from rich.style import Style
+def describe(case, i):
+    return dict(case, consoles=case["consoles"][:i + 1])
+
+
+def upgrade(case):
+    """replay files written before the case format above: {segments: [(text, style dict | None, ctl)], consoles}"""
+    if "segments" not in case:
+        return case
+    styles, segs, idx = [], [], {}
+    for t, s, ctl in case["segments"]:
+        if s is None:
+            segs.append([t, None, ctl])
+        else:
+            key = repr(s)
+            if key not in idx:
+                idx[key] = len(styles)
+                styles.append(dict(r="kw", attrs=s["attrs"], color=s["color"], bgcolor=s["bgcolor"], link=s["link"]))
+            segs.append([t, idx[key], ctl])
+    return dict(styles=styles, segs=segs, mode="segs", pbase=None, cbase=None, crop=True, decapi="line", consoles=case["consoles"])
+
+
+def run_cases(chk, n, only_decoder=False, sweep=False):
     recs, meta = [], []
     _MEANING.clear()
-    for _ in range(n):
-        segs, cfgs = random_case(chk.rng, Style)
-        if only_decoder:
-            cfgs = [dict(system="truecolor", nocolor=False, terminal=True, legacy=False, tty=False)]
-            segs = [sg for sg in segs if not sg[2]] or [("a", None, False)]     # styled text only: control codes are not text
-        links = {}
-        for i, cfg in enumerate(cfgs):
-            rec, out = print_case(segs, cfg, links)
+    cases = list(sweep_cases()) if sweep else []
+    cases += [random_case(chk.rng, only_decoder) for _ in range(n)]
+    for case in cases:
+        for i, rec in enumerate(run_case(case)):
             recs.append(rec)
-            meta.append((segs, cfgs, i))
+            meta.append((case, i))
     return recs, meta
 
 
@@ -180,67 +479,66 @@ def judge(chk, recs, meta, label, prefix=""):
     verdicts, st = tlc.judge("Trace_Sgr", recs)
     chk.add_tlc(st, label)
     chk.traces += len(recs)
-    for rec, (segs, cfgs, i), v in zip(recs, meta, verdicts):
-        styled = any(s["pen"]["attrs"] or s["pen"]["fg"]["k"] != "def" or s["pen"]["bg"]["k"] != "def" for s in rec["segs"])
-        chk.case((repr(describe(segs, cfgs)), i), styled)
+    for rec, (case, i), v in zip(recs, meta, verdicts):
+        styled = any(l["on"] or l["fg"]["k"] not in ("def", "unset") or l["bg"]["k"] not in ("def", "unset") for s in rec["segs"] for l in s["layers"])
+        chk.case((repr(case), i), styled)
         if v != "ok":
             if prefix == "decoder" and not v.startswith("decoder"):
                 continue        # the encoder clauses are C03's
             if prefix == "" and v.startswith("decoder"):
                 continue        # the decoder clause is C19's
-            cfg = cfgs[i]
-            reused = i > 0 and any(c["system"] != cfg["system"] for c in cfgs[:i])
-            sig = "%s system=%s nocolor=%s terminal=%s%s legacy=%s%s" % (v, cfg["system"], cfg["nocolor"], cfg["terminal"], "(tty file)" if cfg.get("tty") else "", cfg["legacy"],
-                                                                     " style-reused-after-other-system" if reused else "")
-            chk.reject(sig, v, dict(part=prefix or "encoder", segments=[(t, None if s is None else repr_style(s), ctl) for t, s, ctl in segs], consoles=cfgs[:i + 1]))
+            cfg, eff = case["consoles"][i], rec["cfg"]
+            reused = i > 0 and any(r["cfg"]["system"] != eff["system"] for r, (c2, j) in zip(recs, meta) if c2 is case and j < i)
+            force = cfg["force"] if "force" in cfg else cfg.get("terminal")
+            sig = "%s system=%s%s nocolor=%s%s terminal=%s%s legacy=%s mode=%s%s%s" % (
+                v, eff["system"], "(auto)" if cfg.get("auto") is not None else "", eff["nocolor"], "(env)" if cfg.get("nocolor_env") else "", eff["terminal"],
+                "(tty file)" if cfg.get("tty") and force is False else ("(asked the file)" if force is None else ""), eff["legacy"], case.get("mode", "segs"),
+                " base=%s" % ("console" if case.get("cbase") is not None else "print") if (case.get("cbase") is not None or case.get("pbase") is not None) else "",
+                " style-reused-after-other-system" if reused else "")
+            if v.startswith("control-code") and any(ctl and st is not None for t, st, ctl in case["segs"]):
+                sig += " styled-control"
+            chk.reject(sig, v, dict(describe(case, i), part=prefix or "encoder"))
     return verdicts
 
 
-def repr_style(st):
-    return dict(attrs={a: getattr(st, a) for a in ATTRS if getattr(st, a) is not None}, color=st.color.name if st.color else None,
-                bgcolor=st.bgcolor.name if st.bgcolor else None, link=st.link)
-
-
-def rebuild(case):
-    from rich.style import Style
-    segs = []
-    cache = {}
-    for t, s, ctl in case["segments"]:
-        if s is None:
-            segs.append((t, None, ctl))
-        else:
-            key = repr(s)
-            if key not in cache:
-                cache[key] = remember(Style(color=s["color"], bgcolor=s["bgcolor"], link=s["link"], **s["attrs"]))
-            segs.append((t, cache[key], ctl))
-    return segs, case["consoles"]
+def _disarm_watchdog_at_exit():
+    """engine/watch.py's repeating CPU tick is still armed when the interpreter shuts down; once Python has restored the default
+    signal dispositions a tick kills the process (SIGVTALRM) and the exit status of a finished check is lost - seen after the
+    thorough tier, whose 100 000 records take long to free.  Disarm it first (atexit runs before the handlers are restored)."""
+    import atexit
+    import signal
+    atexit.register(lambda: signal.setitimer(signal.ITIMER_VIRTUAL, 0))
 
 
 def run(chk: Check):
-    chk.rule = ("a case is (segment sequence, console configuration, position in a history): 1-6 segments with styles over the 13 tri-state "
-                "attributes x {none, default, 16 standard, indexed, 24-bit} foreground x same background x optional link, bell control segments, "
-                "printed on 1-4 consoles in a row (colour system none/standard/256/truecolor/windows x no_color x terminal x legacy windows) that "
-                "share the Style objects; distinct by (segments, consoles, position); non-trivial = some segment carries an attribute or colour")
-    chk.trusted = ["engine/sgrlex.py (lexical tokeniser)", "drivers/c03.py:expected_pen (Style getters; Color.downgrade for the documented down-conversion, judged by C18)"]
-    chk.assumptions = ["console wide enough not to wrap or crop"]
+    _disarm_watchdog_at_exit()
+    chk.rule = ("a case is (segment sequence, how it is written, console configuration, position in a history): 1-8 segments (texts incl. empty, "
+                "wide, combining, punctuation that looks like escape parameters) with styles over the 13 tri-state attributes x {none, default, 16 "
+                "standard, indexed, 24-bit, windows-typed} foreground x same background x optional link, built by keywords / Style.parse / + / chain / "
+                "combine / copy / update_link / without_color / from_color / null / rendered beforehand; control segments (bell, CSI sequences, CR); "
+                "written as one renderable, in several prints, as a Text with spans, by print(str, style=) or out(str, style=), optionally over a "
+                "print-level or console-level base style, cropped or not; on 1-4 consoles in a row (colour system none/standard/256/truecolor/windows "
+                "or detected from TERM/COLORTERM x NO_COLOR by argument or environment x terminal forced / not forced / asked of the file x legacy "
+                "windows x recording) that share the Style objects; plus a hand-listed sweep of every attribute / colour kind alone on all systems; "
+                "distinct by (case, position); non-trivial = some segment carries an attribute or colour")
+    chk.trusted = ["engine/sgrlex.py (lexical tokeniser)",
+                   "drivers/c03.py:layer (Style getters read when the style is created; Color.downgrade for the documented down-conversion, judged by C18)"]
+    chk.assumptions = ["console wide enough not to wrap or crop", "text without C0 controls / ESC (a terminal would interpret them)",
+                       "print-level and console-level base styles are not combined in one case (their relative order is not stated)"]
     if chk.replay_only:
-        segs, cfgs = rebuild(chk.replay_only["case"])
-        links, recs, meta = {}, [], []
-        for i, cfg in enumerate(cfgs):
-            rec, out = print_case(segs, cfg, links)
-            recs.append(rec)
-            meta.append((segs, cfgs, i))
-        judge(chk, recs, meta, "M3")
+        case = upgrade(chk.replay_only["case"])
+        recs = run_case(case)
+        judge(chk, recs, [(case, i) for i in range(len(recs))], "M3")
         return
     r, cov, missing = tlc.model_check("MC_Sgr", coverage=False)
     chk.add_tlc(r, "M1-encoder-design-vs-terminal")
     if r.violated:
         raise tlc.TLCFailure("MC_Sgr violated %s\n%s" % (r.violated, r.out[-2000:]))
     chk.mark("M1")
-    recs, meta = run_cases(chk, chk.pick(2500, 40000))
+    recs, meta = run_cases(chk, chk.pick(2500, 40000), sweep=True)
     chk.mark("execute")
     judge(chk, recs, meta, "M3")
     chk.mark("judge")
     if recs:
-        segs, cfgs, i = meta[-1]
-        chk.sample(dict(case=describe(segs, cfgs), printed_on=cfgs[i], output_events=recs[-1]["out"][:25]))
+        case, i = meta[-1]
+        chk.sample(dict(case=describe(case, i), printed_on=recs[-1]["cfg"], output_events=recs[-1]["out"][:25]))
